@@ -990,6 +990,9 @@ def grid(ctx, rng):
                 if not inner:
                     o = mk(); o.pop('ser', None)
                     cases.append(scripted('generator', o, 1, [], sc))
+                    twin = scripted('generator', dict(o), 1, [], sc)          # the same body as an `async def` coroutine
+                    twin['prog']['async'] = True; twin['spec']['coroutine'] = True
+                    cases.append(twin)
         # commit failures on the first / second real commit
         sc = rng.choice(scripts3)
         cases.append(scripted('decorator', mk(), depth, inner, sc, commit_fail=rng.choice([['u100'], [None, 'u100'], ['u100', 'u100'], ['u100', None, 'u100']])))
@@ -1121,6 +1124,8 @@ class RealMulti(object):
         except core.RollbackException: out = 'rollbackExc'
         except core.OperationalError as e:
             out = 'flushErr' if 'injected flush fault' in str(e) else 'releaseErr' if 'injected rollback fault' in str(e) else 'other:OperationalError:%s' % e
+        except core.UnexpectedError as e:          # how _save_ reports a DBAPI error of the INSERT
+            out = 'flushErr' if 'injected flush fault' in str(e) else 'other:UnexpectedError:%s' % e
         except BaseException as e: out = canon_exc(e)
         obs = {'out': out, 'rows': [self.rows(i) for i in range(NDB)],
                'leaked_caches': len(core.local.db2cache), 'counter': core.local.db_context_counter,
